@@ -11,6 +11,8 @@
 //   cfg_exec --replay FILE                      -> one such line
 #include "global.hpp"  // unodb: first
 
+#include <sys/time.h>
+
 #include <iostream>
 
 #include "art.hpp"
@@ -184,6 +186,9 @@ int main(int argc, char** argv) {
   if (a.has("replay")) {
     scase c;
     if (!case_from_text(read_file(a.str("replay")), c)) return 2;
+    struct itimerval tv {};
+    tv.it_value.tv_sec = 60;
+    setitimer(ITIMER_VIRTUAL, &tv, nullptr);
     trace tr;
     run_case(c, tr);
     print_line(0, c, tr);
@@ -205,6 +210,12 @@ int main(int argc, char** argv) {
     // announce before executing so that a crash (assertion) can be attributed
     std::printf("begin %llu\n", static_cast<unsigned long long>(i));
     std::fflush(stdout);
+    {
+      // CPU-time (not wall-clock) bound per history: a hang is a failure of this executor
+      struct itimerval tv {};
+      tv.it_value.tv_sec = 60;
+      setitimer(ITIMER_VIRTUAL, &tv, nullptr);
+    }
     trace tr;
     run_case(c, tr);
     print_line(i, c, tr);
